@@ -57,7 +57,8 @@ fn numeq(a: V3, b: V3) -> bool {
 // ---------------------------------------------------------------------------------------
 // root, legacy parser
 
-fn cmp_root_legacy(p: &WmoRoot, c: &RootCase, d: &RootDerived, w: &RootWalk, f: &mut Vec<Fail>) {
+/// `parsed`: `p` came out of the parser (defect attribution applies); false: `p` came out of the converter
+fn cmp_root_legacy(p: &WmoRoot, c: &RootCase, d: &RootDerived, w: &RootWalk, parsed: bool, f: &mut Vec<Fail>) {
     let ver = VERSIONS[c.version as usize];
     if p.version.to_raw() != ver.to_raw() {
         push(f, "root-version-number-differs", format!("parsed raw version {} for {}", p.version.to_raw(), VNAMES[c.version as usize]));
@@ -100,7 +101,7 @@ fn cmp_root_legacy(p: &WmoRoot, c: &RootCase, d: &RootDerived, w: &RootWalk, f: 
     }
     // textures and the offset map
     if p.textures != c.textures {
-        let sig = if c.textures.iter().any(|t| !t.is_ascii()) {
+        let sig = if parsed && c.textures.iter().any(|t| !t.is_ascii()) {
             "root-texture-name-non-ascii-mangled"
         } else {
             "root-textures-differ"
@@ -124,9 +125,9 @@ fn cmp_root_legacy(p: &WmoRoot, c: &RootCase, d: &RootDerived, w: &RootWalk, f: 
     }
     if p.groups.len() == c.groups.len() {
         if let Some(i) = (0..c.groups.len()).find(|i| p.groups[*i].name != c.groups[*i].name) {
-            let sig = if w.mogi_offsets_all_zero {
+            let sig = if parsed && w.mogi_offsets_all_zero {
                 "root-mogi-name-offset-always-zero"
-            } else if c.groups[i].name.is_empty() && p.groups[i].name == format!("Group_{i}") {
+            } else if parsed && c.groups[i].name.is_empty() && p.groups[i].name == format!("Group_{i}") {
                 "root-group-name-empty-replaced-by-placeholder"
             } else {
                 "root-group-names-differ"
@@ -204,7 +205,7 @@ fn cmp_root_legacy(p: &WmoRoot, c: &RootCase, d: &RootDerived, w: &RootWalk, f: 
     }
     // skybox
     if p.skybox != d.skybox {
-        let sig = if ver.to_raw() == 17 && d.skybox.is_some() && p.skybox.is_none() {
+        let sig = if parsed && ver.to_raw() == 17 && d.skybox.is_some() && p.skybox.is_none() {
             "root-skybox-dropped-because-version-17-parses-as-classic"
         } else {
             "root-skybox-differs"
@@ -220,7 +221,7 @@ fn cmp_root_legacy(p: &WmoRoot, c: &RootCase, d: &RootDerived, w: &RootWalk, f: 
     // bounds: ±0 may legitimately differ in a min/max reduction → numeric comparison
     let pb = BBox::of(&p.bounding_box);
     if !(numeq(pb.min, d.bounds.min) && numeq(pb.max, d.bounds.max)) {
-        let sig = if d.bounds_is_union {
+        let sig = if d.bounds_is_union || !parsed {
             "root-bounds-differ"
         } else {
             "root-header-bounds-ignored-by-parser"
@@ -423,7 +424,7 @@ pub fn eval_root(c: &RootCase) -> Outcome {
         Ok(Err(e)) => push(&mut o.fails, "root-legacy-parse-error", format!("parse_root rejects the written root: {e}")),
         Ok(Ok(p)) => {
             let mut found = vec![];
-            cmp_root_legacy(&p, c, &d, &w, &mut found);
+            cmp_root_legacy(&p, c, &d, &w, true, &mut found);
             let content_failed = !found.is_empty();
             for x in found {
                 push(&mut o.fails, x.signature, x.message);
@@ -753,7 +754,7 @@ pub fn eval_conv_root(c: &RootCase) -> Outcome {
         mogi_offsets_all_zero: false,
     };
     let mut tmp = vec![];
-    cmp_root_legacy(&root, &c2, &d2, &fake_walk, &mut tmp);
+    cmp_root_legacy(&root, &c2, &d2, &fake_walk, false, &mut tmp);
     for x in tmp {
         push(f, format!("conv-{}", x.signature), format!("after convert_root {} -> {}: {}", VNAMES[c.version as usize], VNAMES[to as usize], x.message));
     }
